@@ -464,6 +464,40 @@ def cells():
     cell("delegate-star-prefix-noninterned-name",
          star_prefix_noninterned_name)
 
+    def delegate_is_a_temporary(o, S):
+        # the delegate is not stored anywhere: a property hands out a fresh
+        # object per access and the write goes through it (modify=True);
+        # also a two-step chain whose first hop is such a temporary
+        from traits.api import Delegate as _Dg, Property as _Pr
+
+        class Tg(HasTraits):
+            x = Any
+
+        class Hop(HasTraits):
+            nxt = _Pr()
+            x = _Dg("nxt", modify=True)
+
+            def _get_nxt(self):
+                return Tg()
+
+        class Dl(HasTraits):
+            other = _Pr()
+            hop = _Pr()
+            x = _Dg("other", modify=True)
+            y = _Dg("hop", prefix="x", modify=True)
+
+            def _get_other(self):
+                return Tg()
+
+            def _get_hop(self):
+                return Hop()
+        d = Dl()
+        for i in range(50):
+            d.x = S
+            d.y = S
+            d.x = [i]           # allocations that reuse freed memory
+    cell("delegate-is-a-temporary", delegate_is_a_temporary)
+
     def tuple_later_member_raises(o, S):
         # the first member is converted (a new tuple is started), the caller's
         # second item is carried over, the third member's protocol raises
